@@ -62,6 +62,33 @@ def ordered_subsets(n: int, kmin: int = 0):
             yield list(sub)
 
 
+def f32_exact_20(v20: int) -> int:
+    """nearest value (in 2^-20 units) that float32 represents exactly — what `torch.tensor(v, float32)` will hold"""
+    import numpy as np
+
+    r = float(np.float32(v20 / rl.SCALE)) * rl.SCALE
+    assert r == int(r)
+    return int(r)
+
+
+def place(rng, pts, big: bool):
+    """(c) magnitudes: scale the unit box by a power of two and shift it by whole units (both exact on the
+    2^-10 grid; distances scale by the same power of two, so float32 norms stay exact)"""
+    s = 1 if big else rng.choice([1, 1, 1, 2, 4])
+    ox, oy = (rng.choice([0, 0, 1, 3, -2]) * geom.GRID, rng.choice([0, 0, 2, -1]) * geom.GRID)
+    return [(x * s + ox, y * s + oy) for (x, y) in pts], s
+
+
+_BIG = [0]
+
+
+def sizes_with_large(tier: str) -> List[int]:
+    """(c) sizes: about one batch in eight uses n = 30..50"""
+    _BIG[0] += 1
+    big = 30 + (_BIG[0] * 7) % 21
+    return [2, 3, 5, 8, 2, 3, 5, big] if tier == "quick" else [1, 2, 3, 5, 8, 13, 20, big]
+
+
 def tour_len_grid(D, tour: List[int]) -> int:
     seq = [0] + list(tour) + [0]
     return sum(D[a][b] for a, b in zip(seq, seq[1:]))
@@ -78,22 +105,37 @@ class OpAdapter(envcorr.Adapter):
         self._env = None
         self._rb = {}
 
-    def make_env(self, **kw):
+    GEN_L = 2.0
+
+    def make_env(self, gen_L=None, prize_type="dist", check_solution=False, torchrl=False, box=None, **kw):
         from rl4co.envs.routing.op.env import OPEnv
 
-        return OPEnv(generator_params=dict(num_loc=5, max_length=2.0), check_solution=False)
+        gp = dict(num_loc=5, max_length=self.GEN_L if gen_L is None else gen_L, prize_type=prize_type)
+        if box is not None:
+            gp.update(min_loc=box[0], max_loc=box[1])
+        return OPEnv(generator_params=gp, prize_type=prize_type, check_solution=check_solution, _torchrl_mode=torchrl)
+
+    def variants(self):
+        # (b) env / generator options otherwise left at their defaults; (a) the generator's own `max_length` lies
+        # below AND above the instances' per-row `max_length`, which is what `_reset` must read
+        return [{}, {"gen_L": 0.125}, {"gen_L": 0.5, "prize_type": "unif"}, {"gen_L": 16.0, "prize_type": "const"},
+                {"check_solution": True}, {"torchrl": True, "gen_L": 0.25}, {"box": (-2.0, 6.0), "gen_L": 1.0}]
+
+    def sizes(self, tier):
+        return sizes_with_large(tier)
 
     def n_of(self, inst):
         return inst["n"]
 
     def kinds(self):
-        return ["random", "random", "eq", "eq", "below-margin", "above-margin", "short", "tiny", "cluster"]
+        return ["random", "random", "eq", "eq", "below-margin", "above-margin", "short", "tiny", "cluster", "roomy"]
 
-    def gen_instance(self, rng, n, kind="random"):
-        pts = geom.gen_points(rng, n + 1)
+    def gen_instance(self, rng, n, kind="random", **var):
+        pts, scale = place(rng, geom.gen_points(rng, n + 1), big=n > 20)
         D = geom.dist_matrix(pts)
-        prize = [rng.randint(0, PRIZE_DEN) for _ in range(n)]
-        k = rng.randint(1, n) if n >= 1 else 0
+        pmul = rng.choice([1, 1, 1, 100])  # (c) prize magnitudes: up to 1.0 or up to 100.0
+        prize = [rng.randint(0, PRIZE_DEN) * pmul for _ in range(n)]
+        k = rng.randint(1, min(n, 8)) if n >= 1 else 0
         tour = rng.sample(range(1, n + 1), k)
         T = tour_len_grid(D, tour) << 10  # in 2^-20 units
         dmax = max(D[0]) << 10
@@ -109,11 +151,14 @@ class OpAdapter(envcorr.Adapter):
             L = rng.choice([0, 1, max(0, 2 * min(D[0][1:] or [0]) << 10), rng.randint(0, 2 * dmax + 1)])
         elif kind == "cluster" and n >= 2:
             # budget = length of a customer-only cycle (shorter than the same tour through the depot)
-            cyc = rng.sample(range(1, n + 1), rng.randint(2, n))
+            cyc = rng.sample(range(1, n + 1), rng.randint(2, min(n, 8)))
             L = sum(D[a][b] for a, b in zip(cyc, cyc[1:] + cyc[:1])) << 10
+        elif kind == "roomy":  # budget far above anything the env's generator is configured with
+            L = 2 * T + 4 * dmax + (rng.randint(1, 8) << 20)
         else:
             L = rng.randint(0, max(1, 2 * T + (dmax >> 1)))
-        return {"kind": kind, "n": n, "pts": pts, "prize": prize, "L20": L, "ref": tour}
+        return {"kind": kind, "n": n, "pts": pts, "prize": prize, "L20": f32_exact_20(L), "ref": tour,
+                "var": tuple(sorted(var.items()))}
 
     def steering_prefix(self, rng, inst):
         """drive half of the C01 episodes along the reference tour whose length sits at the budget boundary"""
@@ -129,13 +174,15 @@ class OpAdapter(envcorr.Adapter):
 
     # ---- read-back of the pre-computed budgets (DESIGN §3.2) ---------------------------------------
     def readback(self, inst):
-        key = (tuple(inst["pts"]), inst["L20"])
+        key = (tuple(inst["pts"]), inst["L20"], inst.get("var", ()))
         if key in self._rb:
             return self._rb[key]
-        if self._env is None:
-            self._env = self.make_env()
-        td = self._env.reset(self.to_td([inst]))
+        td = self.env_for(dict(inst.get("var", ()))).reset(self.to_td([inst]))
         budget_f = td["max_length"][0]
+        # exact-stream re-assertion: the distances the real code computes are the integral ones
+        d_real = (td["locs"][..., 0:1, :] - td["locs"]).norm(p=2, dim=-1)[0].tolist()
+        if [v * geom.GRID for v in d_real] != [float(v) for v in geom.dist_matrix(inst["pts"])[0]]:
+            raise ValueError("instance is not on the exact stream (float32 distance differs from the integral one)")
         # the checker's bound, computed with the checker's own float32 expression
         cb_f = (td["max_length"] + (td["locs"][..., 0:1, :] - td["locs"]).norm(p=2, dim=-1) + 1e-6)[0] + 1e-5
         budget = [op_units(v) for v in budget_f.tolist()]
@@ -155,14 +202,18 @@ class OpAdapter(envcorr.Adapter):
                 hyp_fail["C01"].append(f"WF.budget_le fails at node {j}: budget − (L − D j 0) = {float(bq - (Lq - dq)):.3g}")
             if j >= 1 and Lq - dq - Fraction(op_margin_units(Lq, dq), OP_UNIT) > bq:
                 hyp_fail["C05"].append(f"MarginLe fails at node {j}: (L − D j 0) − budget = {float(Lq - dq - bq):.3g} > 1e-6 + one ulp")
-            if not (Lq <= cq <= Lq + Fraction(TOL_OP, OP_UNIT)):
-                hyp_fail["C06"].append(f"checker bound at node {j}: cbound − L = {float(cq - Lq):.3g} not in [0, 2e-5]")
+            if not (Lq <= cq <= Lq + Fraction(self.tol_units(inst), OP_UNIT)):
+                hyp_fail["C06"].append(f"checker bound at node {j}: cbound − L = {float(cq - Lq):.3g} not in [0, 2e-5 + 2 ulp]")
             if abs(bq - (Lq - dq - Fraction(1, 10**6))) > ulp32(float(Lq - dq)) + Fraction(1, 10**12):
                 glue_off = True
             if abs(cq - (Lq + Fraction(1, 10**5))) > 4 * ulp32(float(max(Lq, dq)) + 1e-5) + Fraction(1, 10**12):
                 glue_off = True
         self._rb[key] = (budget, cbound, (hyp_fail, glue_off))
         return self._rb[key]
+
+    def tol_units(self, inst) -> int:
+        """"beyond rounding tolerance" for the OP checker: 2e-5 plus two float32 ulps at the magnitude of L"""
+        return TOL_OP + math.ceil(2 * ulp32(max(inst["L20"] / rl.SCALE, 2.0 ** -10)) * OP_UNIT)
 
     def line(self, op, inst, actions):
         n = inst["n"]
@@ -171,11 +222,12 @@ class OpAdapter(envcorr.Adapter):
         flat = [v * GRID_TO_OP for row in D for v in row]
         prize = [p * (OP_UNIT // PRIZE_DEN) for p in inst["prize"]]
         j = lambda xs: " ".join(map(str, xs))
-        return (f"op.{op} {n} {inst['L20'] * T20_TO_OP} {TOL_OP} | {j(prize)} | {j(flat)} | {j(budget)} | "
+        return (f"op.{op} {n} {inst['L20'] * T20_TO_OP} {self.tol_units(inst)} | {j(prize)} | {j(flat)} | {j(budget)} | "
                 f"{j(cbound)} | {j(actions)}")
 
     def real_reward_ticks(self, env, td, actions):
-        r = env._get_reward(td, actions)
+        # with `check_solution=True` (a variant) go through the public `get_reward`, which validates first
+        r = env.get_reward(td, actions) if getattr(env, "check_solution", False) else env._get_reward(td, actions)
         return [op_units(v) for v in r.flatten().tolist()]
 
     def step_bound(self, inst):
@@ -211,24 +263,40 @@ class OpAdapter(envcorr.Adapter):
     # ---- the minimal witnesses of the two known findings, replayed first on every run ---------------
     def fixed_instances(self):
         return [{"kind": "known-finding-C05", "n": 1, "pts": [(512, 512), (768, 512)], "prize": [PRIZE_DEN],
-                 "L20": 1 << 19, "ref": [1]}]
+                 "L20": 1 << 19, "ref": [1], "var": ()}]
 
     def fixed_cases(self):
         inst = {"kind": "known-finding-C06", "n": 2, "pts": [(512, 512), (768, 512), (784, 512)],
-                "prize": [PRIZE_DEN // 2, PRIZE_DEN // 2], "L20": 1 << 18, "ref": [1, 2]}
+                "prize": [PRIZE_DEN // 2, PRIZE_DEN // 2], "L20": 1 << 18, "ref": [1, 2], "var": ()}
         return [(inst, "known-finding-open-tour", [1, 2]), (inst, "known-finding-closed-tour", [1, 2, 0])]
 
     # ---- classification of property failures into stable keys --------------------------------------
-    def hidden_key(self, inst, sol, f):
-        slack = int(f.get("slack", "-1"))
+    def hidden_key(self, inst, sol, f, blocked_at=None):
+        """known finding only when the blocked step is explained by the 1e-6 margin: the tour closed right after the
+        blocked customer uses the budget up to less than (1e-6 + one ulp); any other hidden solution is fresh"""
         D = geom.dist_matrix(inst["pts"])
-        if 0 <= slack <= op_margin_units(Fraction(inst["L20"], rl.SCALE), Fraction(max(D[0]), geom.GRID)):
-            return "op:mask-hides-feasible:slack-within-1e-6-margin"
+        if blocked_at is not None and sol[blocked_at] != 0:
+            closing = tour_len_grid(D, sol[: blocked_at + 1]) << 10  # 2^-20 units, exact
+            room = (inst["L20"] - closing) * T20_TO_OP
+            if 0 <= room <= op_margin_units(Fraction(inst["L20"], rl.SCALE), Fraction(max(D[0]), geom.GRID)):
+                return "op:mask-hides-feasible:slack-within-1e-6-margin"
         return "op:mask-hides-feasible"
 
+    def batch_key(self, width):
+        """known finding only for action tensors with a single column (gather_by_index squeezes the step dimension)"""
+        return "op:checker-batch-differs-from-rows" + (":single-column" if width == 1 else "")
+
     def accepts_key(self, inst, sol, f):
-        if sol and sol[0] != 0 and sol[-1] != 0:
-            return "op:checker-accepts-infeasible:tour-not-closed-at-depot"
+        """known finding only when the acceptance is explained by the missing depot legs: the list neither starts
+        nor ends at the depot, is in range without repeated customers, and the cycle through the listed nodes
+        alone fits the budget (+ tolerance); any other accepted infeasible list is fresh"""
+        n = inst["n"]
+        if sol and sol[0] != 0 and sol[-1] != 0 and all(0 <= a <= n for a in sol):
+            cust = [a for a in sol if a != 0]
+            D = geom.dist_matrix(inst["pts"])
+            cyc = sum(D[a][b] for a, b in zip(sol, sol[1:] + sol[:1])) << 10
+            if len(set(cust)) == len(cust) and cyc * T20_TO_OP <= inst["L20"] * T20_TO_OP + self.tol_units(inst):
+                return "op:checker-accepts-infeasible:tour-not-closed-at-depot"
         return "op:checker-accepts-infeasible"
 
 
@@ -239,15 +307,22 @@ class _EnvByN:
     """`PCTSPEnv._reset` sizes `visited` from `self.generator.num_loc` (not from the data), so one env object
     per instance size; `step`, reward and checker do not depend on the generator."""
 
-    def __init__(self, cls):
+    def __init__(self, cls, check_solution=False, torchrl=False, **gen):
         self.cls = cls
         self.envs = {}
         self.cur = None
+        self.check_solution = check_solution
+        self.torchrl = torchrl
+        self.gen = gen
 
     def _get(self, n):
         if n not in self.envs:
-            self.envs[n] = self.cls(generator_params=dict(num_loc=max(n, 1)), check_solution=False)
+            self.envs[n] = self.cls(generator_params=dict(num_loc=max(n, 1), **self.gen),
+                                    check_solution=self.check_solution, _torchrl_mode=self.torchrl)
         return self.envs[n]
+
+    def get_reward(self, td, actions):
+        return self.cur.get_reward(td, actions)
 
     def reset(self, td):
         self.cur = self._get(td["locs"].shape[-2])
@@ -282,24 +357,37 @@ class PctspAdapter(envcorr.Adapter):
 
         return PCTSPEnv
 
-    def make_env(self, **kw):
-        return _EnvByN(self.env_class())
+    def make_env(self, check_solution=False, torchrl=False, box=None, **gen):
+        if box is not None:
+            gen.update(min_loc=box[0], max_loc=box[1])
+        return _EnvByN(self.env_class(), check_solution=check_solution, torchrl=torchrl, **gen)
+
+    def variants(self):
+        # (b) generator / env options otherwise left at their defaults.  `prize_required` is stored in the state but
+        # the mask and the checker use the literal 1.0 (prizes are normalised so that the requirement is 1): the
+        # behaviour must not depend on it, the Spec requirement stays 1.0
+        return [{}, {"penalty_factor": 10.0}, {"prize_required": 0.5}, {"prize_required": 2.0, "check_solution": True},
+                {"torchrl": True}, {"box": (-2.0, 6.0), "penalty_factor": 0.5}]
+
+    def sizes(self, tier):
+        return sizes_with_large(tier)
 
     def n_of(self, inst):
         return inst["n"]
 
     def kinds(self):
-        return ["random", "eq", "eq", "near-1", "near-10", "near-11", "poor", "rich"]
+        return ["random", "eq", "eq", "near-1", "near-10", "near-11", "poor", "poor", "rich", "one-short"]
 
     def _prize_row(self, rng, n, kind):
         S = rl.SCALE
         if kind in ("eq", "near-1", "near-10", "near-11"):
             # a random subset sums to exactly 1: split 64/64 into |subset| positive parts; the rest random
-            k = rng.randint(1, n)
+            k = rng.randint(1, min(n, 8))
             sub = rng.sample(range(n), k)
             cuts = sorted(rng.sample(range(1, self.PDEN), k - 1)) if k > 1 else []
             parts = [b - a for a, b in zip([0] + cuts, cuts + [self.PDEN])]
-            row = [rng.randint(0, self.PDEN // 2) * (S // self.PDEN) for _ in range(n)]
+            hi = self.PDEN // 2 if n <= 20 else self.PDEN // 8  # keeps every partial float32 sum exact (< 16)
+            row = [rng.randint(0, hi) * (S // self.PDEN) for _ in range(n)]
             for idx, p in zip(sub, parts):
                 row[idx] = p * (S // self.PDEN)
             if kind != "eq":
@@ -307,21 +395,34 @@ class PctspAdapter(envcorr.Adapter):
             self._ref = [c + 1 for c in sub]
             return row
         self._ref = rng.sample(range(1, n + 1), rng.randint(1, n))
-        if kind == "poor":  # total prize below 1: everybody must be visited
-            return [rng.randint(0, max(1, self.PDEN // (n + 1))) * (S // self.PDEN) for _ in range(n)]
+        if kind == "poor":  # total prize below 1: everybody must be visited (then the depot opens with prize < 1)
+            cap = (S - 1) // n
+            return [rng.randint(0, cap) // rng.choice([1, 1, 4]) for _ in range(n)]
+        if kind == "one-short":  # every n−1 customers together stay below 1, all n together reach it
+            base = S // n
+            row = [base] * n
+            row[rng.randrange(n)] += S - base * n
+            return row
         if kind == "rich":
             return [rng.randint(self.PDEN // 2, 2 * self.PDEN) * (S // self.PDEN) for _ in range(n)]
         return [rng.randint(0, self.PDEN) * (S // self.PDEN) for _ in range(n)]
 
-    def gen_instance(self, rng, n, kind="random"):
-        pts = geom.gen_points(rng, n + 1)
+    def gen_instance(self, rng, n, kind="random", **var):
+        pts, scale = place(rng, geom.gen_points(rng, n + 1), big=n > 20)
         # the row of the given kind is the REAL prize row (det for PCTSP, sto for SPCTSP); the other row is unrelated
         real = self._prize_row(rng, n, kind)
         ref = list(self._ref)
         other = self._prize_row(rng, n, rng.choice(self.kinds()))
         det, sto = (other, real) if self.stochastic else (real, other)
-        pen = [rng.randint(0, 32) * (rl.SCALE // 32) for _ in range(n)]
-        return {"kind": kind, "n": n, "pts": pts, "det": det, "sto": sto, "pen": pen, "ref": ref}
+        # (a)/(c) penalties differ per row and in magnitude: all zero, up to 1, up to 8
+        pmul = rng.choice([0, 1, 1, 1, 8])
+        pen = [rng.randint(0, 32) * pmul * (rl.SCALE // 32) for _ in range(n)]
+        return {"kind": kind, "n": n, "pts": pts, "det": det, "sto": sto, "pen": pen, "ref": ref,
+                "var": tuple(sorted(var.items()))}
+
+    def real_reward_ticks(self, env, td, actions):
+        r = env.get_reward(td, actions) if getattr(env, "check_solution", False) else env._get_reward(td, actions)
+        return [rl.ticks(v) for v in r.flatten().tolist()]
 
     def steering_prefix(self, rng, inst):
         """drive half of the C01 episodes along the reference subset whose real prize sits at the requirement"""
@@ -387,13 +488,16 @@ class PctspAdapter(envcorr.Adapter):
         row, other = [S // 2, S // 2, S // 4], [S // 8, 0, S // 8]
         det, sto = (other, row) if self.stochastic else (row, other)
         return [{"kind": "fixed-eq", "n": 3, "pts": [(512, 512), (768, 512), (256, 512), (576, 512)],
-                 "det": det, "sto": sto, "pen": [S // 32, S // 16, S // 8], "ref": [1, 2]}]
+                 "det": det, "sto": sto, "pen": [S // 32, S // 16, S // 8], "ref": [1, 2], "var": ()}]
 
     def fixed_cases(self):
         inst = self.fixed_instances()[0]
         return [(inst, "fixed-eq", [1, 2, 0]), (inst, "fixed-eq-no-final-depot", [1, 2]), (inst, "fixed-short", [1, 3, 0])]
 
-    def hidden_key(self, inst, sol, f):
+    def batch_key(self, width):
+        return f"{self.name}:checker-batch-differs-from-rows"
+
+    def hidden_key(self, inst, sol, f, blocked_at=None):
         return f"{self.name}:mask-hides-feasible"
 
     def accepts_key(self, inst, sol, f):
@@ -449,11 +553,13 @@ def generic_stream(ctx, ad, batches_quick: int = 12, batches_thorough: int = 150
         if ad.name == "op":
             from rl4co.envs.routing.op.env import OPEnv
 
-            # (prize_type "unif"/"const" of OPGenerator read an undefined `self.device`; only the default "dist" works)
-            env = OPEnv(generator_params=dict(num_loc=n, max_length=ctx.rng.choice([0.5, 1.0, 2.0, 3.0])),
-                        check_solution=False)
+            pt = ctx.rng.choice(["dist", "unif", "const"])
+            env = OPEnv(generator_params=dict(num_loc=n, max_length=ctx.rng.choice([0.5, 1.0, 2.0, 3.0]), prize_type=pt),
+                        prize_type=pt, check_solution=ctx.rng.random() < 0.5)
+            ctx.count(f"op.generic.prize_type={pt}")
         else:
-            env = ad.env_class()(generator_params=dict(num_loc=n), check_solution=False)
+            env = ad.env_class()(generator_params=dict(num_loc=n, penalty_factor=ctx.rng.choice([3.0, 3.0, 0.5, 10.0])),
+                                 check_solution=ctx.rng.random() < 0.5)
         td0 = env.generator(batch_size=[B])
         eager = ctx.rng.random() < 0.7  # prefer customers, so that the length budget / prize rule becomes binding
 
@@ -469,7 +575,12 @@ def generic_stream(ctx, ad, batches_quick: int = 12, batches_thorough: int = 150
         if ep.empty_mask_rows:
             ctx.violation(f"{ad.name}:generic:dead-end", "all-False mask row while the batch is running", {"n": n, "B": B})
             continue
-        rew = env._get_reward(ep.td, rl.actions_tensor(ep)).double().tolist()
+        try:  # the public entry point: validates first when the env was built with check_solution=True
+            rew = env.get_reward(ep.td, rl.actions_tensor(ep)).double().tolist()
+        except AssertionError as e:
+            ctx.violation(f"{ad.name}:generic:get_reward-raises-on-mask-generated",
+                          f"get_reward(check_solution=True) raises on a mask-generated batch: {e}", {"n": n, "actions": ep.actions})
+            continue
         locs = np.concatenate([td0["depot"].double().numpy()[:, None, :], td0["locs"].double().numpy()], axis=1)
         for r in range(B):
             acts = ep.actions[r]
@@ -499,6 +610,8 @@ def generic_stream(ctx, ad, batches_quick: int = 12, batches_thorough: int = 150
                     ctx.count(f"{ad.name}.generic.all-visited-prize-short")
                 wit.update(collected_real_prize=got)
                 sign = -1.0
+            ctx.sample({"env": ad.name, "stream": "generic", "n": n, "actions": acts, "reward": rew[r],
+                        "float64_objective": obj, "feasible": feasible}, cap=6)
             if ctx.prop == "C01" and not feasible:
                 ctx.violation(f"{ad.name}:generic:infeasible-episode",
                               "mask-confined episode on a generator instance is infeasible (float64 evaluation, tol 1e-5)", wit)
@@ -520,17 +633,18 @@ def check_reward_prize(ctx, ad):
     """C03: generic reward comparison + the single-column special case of `_get_reward` (a batch-global
     shortcut: the model's `rewardAssert`/0 branch) + boundary kinds counted."""
     envcorr.check_reward(ctx, ad)
-    env = ad.make_env()
     # the special case: action tensors with a single column
-    for _ in range(ctx.budget(4, 40)):
+    for _ in range(ctx.budget(6, 60)):
+        env, var = envcorr.pick_env(ctx, ad)
         n = ctx.rng.choice(ad.sizes(ctx.tier))
         B = ctx.rng.choice([1, 2, 3])
-        insts = envcorr.make_batch(ad, ctx, n, B)
+        insts = envcorr.make_batch(ad, ctx, n, B, var)
         td = env.reset(ad.to_td(insts))
         for col in ([0] * B, [ctx.rng.randint(0, n) for _ in range(B)]):
             acts = torch.tensor(col, dtype=torch.long).reshape(B, 1)
-            try:
-                real = ad.real_reward_ticks(env, td, acts)
+            try:  # `_get_reward` itself (the public `get_reward` of a check_solution=True variant validates first)
+                conv = op_units if ad.name == "op" else rl.ticks
+                real = [conv(v) for v in env._get_reward(td, acts).flatten().tolist()]
                 raised = False
             except AssertionError:
                 real, raised = None, True
@@ -538,6 +652,8 @@ def check_reward_prize(ctx, ad):
             fs = [parse_fields(x) for x in replies]
             model_raises = any(f.get("rassert") == "0" for f in fs)
             ctx.case((ad.name, "single-column", repr(insts), tuple(col)), nontrivial=False)
+            ctx.sample({"env": ad.name, "case": "single-column _get_reward", "column": col, "real_raises": raised,
+                        "real_reward": real}, cap=5)
             ctx.count(f"{ad.name}.single-column.{'raises' if raised else 'returns'}")
             if model_raises != raised:
                 ctx.disagreement(f"{ad.name}: single-column reward assertion differs",
@@ -554,17 +670,24 @@ def check_completeness_prize(ctx, ad, insts_quick: int = 40, insts_thorough: int
     instance must be admitted step by step by the REAL mask and end `done`; additionally the best reward
     over the mask-admitted complete solutions is compared with the brute-force optimum of the Spec.
     The violation key is refined by `ad.hidden_key` (constraint met with equality / within OP's margin)."""
-    env = ad.make_env()
     total = ctx.budget(insts_quick, insts_thorough)
     nmax = ctx.budget(nmax_quick, nmax_thorough)
     kinds = ad.kinds()
+    variants = ad.variants()
     fixed = ad.fixed_instances()
     for g in range(-len(fixed), total):
         if g < 0:
             inst = fixed[g + len(fixed)]
+            env = ad.env_for({})
         else:
+            # every env variant and every instance kind is met early in the run, then random pairs
+            var = variants[g % len(variants)] if g < 3 * len(variants) else ctx.rng.choice(variants)
+            env = ad.env_for(var)
+            if var:
+                ctx.count(f"{ad.name}.variant=" + ",".join(f"{k}={v}" for k, v in sorted(var.items())))
             n = ctx.rng.randint(1, nmax)
-            inst = ad.gen_instance(ctx.rng, n, kinds[g % len(kinds)] if g < 2 * len(kinds) else ctx.rng.choice(kinds))
+            inst = ad.gen_instance(ctx.rng, n, kinds[(g // 2) % len(kinds)] if g < 4 * len(kinds) else ctx.rng.choice(kinds),
+                                   **var)
         cands = list(ad.enumerate_solutions(inst))
         replies = ctx.driver.ask_many([ad.line("episode", inst, c) for c in cands])
         feas = []
@@ -599,7 +722,7 @@ def check_completeness_prize(ctx, ad, insts_quick: int = 40, insts_thorough: int
                         alive[r] = False
                         slack = int(f.get("slack", "0"))
                         ctx.count(f"{ad.name}.hidden.slack={'0' if slack == 0 else 'pos'}")
-                        ctx.violation(ad.hidden_key(inst, c, f),
+                        ctx.violation(ad.hidden_key(inst, c, f, blocked_at=t),
                                       "a feasible solution (Lean Spec) is not offered by the real mask",
                                       {"inst": inst, "solution": c, "blocked_at_step": t, "mask": rl.mask_str(mask[r]),
                                        "spec_slack_units": slack, "model_admits": f.get("adm")})
@@ -635,14 +758,14 @@ def check_completeness_prize(ctx, ad, insts_quick: int = 40, insts_thorough: int
 def check_checker_prize(ctx, ad, episodes_quick: int = 100, episodes_thorough: int = 2000):
     """C06 (adapted from envcorr.check_checker): mask-generated, hand-built and corrupted solutions;
     real checker vs model checker vs Spec, with the acceptance key refined by `ad.accepts_key`."""
-    env = ad.make_env()
     total = ctx.budget(episodes_quick, episodes_thorough)
     done_eps = 0
     first = True
     while done_eps < total:
+        env, var = envcorr.pick_env(ctx, ad)
         n = ctx.rng.choice(ad.sizes(ctx.tier))
         B = ctx.rng.choice([1, 2, 4])
-        insts = envcorr.make_batch(ad, ctx, n, B)
+        insts = envcorr.make_batch(ad, ctx, n, B, var)
         try:
             td0, ep = envcorr.run_batch(ctx, ad, env, insts, extra_pad=ctx.rng.choice([0, 0, 2]))
         except envcorr.EpisodeFailed:
@@ -662,13 +785,16 @@ def check_checker_prize(ctx, ad, episodes_quick: int = 100, episodes_thorough: i
                 cases.append((insts[r], "extra-customer", core + [c, 0]))
                 cases.append((insts[r], "extra-customer-no-final-depot", core + [c]))
         replies = ctx.driver.ask_many([ad.line("check", i, s) for (i, lab, s) in cases])
-        for (inst, lab, sol), rep in zip(cases, replies):
+        solo = {}
+        for k, ((inst, lab, sol), rep) in enumerate(zip(cases, replies)):
             f = parse_fields(rep)
             if "feas" not in f:
                 ctx.disagreement(f"{ad.name}: driver error", {"reply": rep, "inst": inst, "actions": sol})
                 continue
-            td1 = env.reset(ad.to_td([inst]))
-            acc = rl.checker_accepts(env, td1, torch.tensor([sol], dtype=torch.long))
+            env_i = ad.env_for(dict(inst.get("var", ())))
+            td1 = env_i.reset(ad.to_td([inst]))
+            acc = rl.checker_accepts(env_i, td1, torch.tensor([sol], dtype=torch.long))
+            solo[k] = acc
             ctx.case((ad.name, repr(inst), lab, tuple(sol)), nontrivial=True)
             ctx.count(f"{ad.name}.{lab}.{'feasible' if f['feas'] == '1' else ('near' if f.get('near') == '1' else 'infeasible')}")
             if (f["check"] == "1") != acc:
@@ -684,7 +810,65 @@ def check_checker_prize(ctx, ad, episodes_quick: int = 100, episodes_thorough: i
                               {"inst": inst, "label": lab, "actions": sol, "slack": f.get("slack")})
             ctx.sample({"env": ad.name, "label": lab, "inst": inst, "actions": sol,
                         "real_checker_accepts": acc, "spec_feasible": f["feas"]}, cap=4)
+        # (d) `get_reward` calls the checker on whole batches: a batch must be accepted iff each of its rows is
+        # accepted on its own (rows of one env variant, one size and one action-tensor width are stacked)
+        groups = {}
+        for k, (inst, lab, sol) in enumerate(cases):
+            if k in solo and len(sol) > 0:
+                groups.setdefault((inst.get("var", ()), inst["n"], len(sol)), []).append(k)
+        for (v, nn, width), idx in groups.items():
+            if len(idx) < 2:
+                continue
+            for _ in range(2):
+                grp = ctx.rng.sample(idx, min(len(idx), ctx.rng.choice([2, 3, 4])))
+                rej = [k for k in grp if not solo[k]]
+                if len(rej) > 1:  # compositions with at most one rejected row are the informative ones
+                    grp = [k for k in grp if solo[k]] + rej[:1]
+                    if len(grp) < 2:
+                        continue
+                ctx.rng.shuffle(grp)
+                env_b = ad.env_for(dict(v))
+                tdb = env_b.reset(ad.to_td([cases[k][0] for k in grp]))
+                accb = rl.checker_accepts(env_b, tdb, torch.tensor([cases[k][2] for k in grp], dtype=torch.long))
+                expect = all(solo[k] for k in grp)
+                ctx.count(f"{ad.name}.checker-batch.{'all-accepted' if expect else 'one-rejected'}")
+                if accb != expect:
+                    ctx.violation(ad.batch_key(width),
+                                  "the checker's verdict on a batch is not the conjunction of its verdicts on the rows",
+                                  {"rows": [{"inst": cases[k][0], "label": cases[k][1], "actions": cases[k][2],
+                                             "solo_accepts": solo[k]} for k in grp], "batch_accepts": accb})
+        if ad.name == "op":
+            single_column_batches(ctx, ad, insts[0])
         done_eps += B
+
+
+def single_column_batches(ctx, ad, inst):
+    """OP checker on batches whose action tensor has ONE column (model: `Rl4co.Op.checkSingleColumnBatch`): rows are
+    copies of one point set (so that cross-row distances are integral) with different budgets."""
+    n = inst["n"]
+    D = geom.dist_matrix(inst["pts"])
+    env = ad.env_for(dict(inst.get("var", ())))
+    for _ in range(2):
+        B = ctx.rng.choice([1, 2, 3])
+        dmax = max(D[0]) << 10
+        rows = [dict(inst, L20=f32_exact_20(ctx.rng.choice([inst["L20"], 0, ctx.rng.randint(0, 4 * dmax + 1)]))) for _ in range(B)]
+        acts = [ctx.rng.choice([0, 0, ctx.rng.randint(0, n)]) for _ in range(B)]
+        solo = []
+        for r in range(B):
+            solo.append(rl.checker_accepts(env, env.reset(ad.to_td([rows[r]])), torch.tensor([[acts[r]]], dtype=torch.long)))
+        accb = rl.checker_accepts(env, env.reset(ad.to_td(rows)), torch.tensor([[a] for a in acts], dtype=torch.long))
+        secs = [f"{n} {acts[r]} " + " ".join(map(str, ad.readback(rows[r])[1])) for r in range(B)]
+        X = [D[acts[r]][acts[q]] * GRID_TO_OP for r in range(B) for q in range(B)]
+        f = parse_fields(ctx.driver.ask(f"op.check1col {B} | " + " | ".join(secs) + " | " + " ".join(map(str, X))))
+        ctx.case((ad.name, "single-column-batch", repr(rows), tuple(acts)))
+        ctx.count(f"op.single-column-batch.B={B}")
+        if f.get("check") != ("1" if accb else "0"):
+            ctx.disagreement("op: single-column batch checker model differs from the real checker",
+                             {"rows": rows, "actions": acts, "real_accepts": accb, "model": f.get("check")})
+        if accb != all(solo):
+            ctx.violation(ad.batch_key(1), "the checker's verdict on a single-column batch is not the conjunction of its "
+                          "verdicts on the rows", {"rows": rows, "actions": acts, "solo_accepts": solo, "batch_accepts": accb})
+        ctx.sample({"env": "op", "case": "single-column batch", "actions": acts, "solo_accepts": solo, "batch_accepts": accb}, cap=6)
 
 
 def replay_prize(ctx, ad, witness):
@@ -698,7 +882,8 @@ def replay_prize(ctx, ad, witness):
         return
     inst = dict(inst)
     inst["pts"] = [tuple(p) for p in inst["pts"]]
-    env = ad.make_env()
+    inst["var"] = tuple((k, tuple(v) if isinstance(v, list) else v) for k, v in inst.get("var", ()))
+    env = ad.env_for(dict(inst["var"]))
     f = parse_fields(ctx.driver.ask(ad.line("episode", inst, sol)))
     td = env.reset(ad.to_td([inst]))
     blocked = None
@@ -712,7 +897,7 @@ def replay_prize(ctx, ad, witness):
     print(f"replay {ad.name}: spec_feasible={f.get('feas')} slack={f.get('slack')} real_mask_blocks_at={blocked} "
           f"real_done={bool(td['done'].reshape(-1)[0]) if blocked is None else None} real_checker_accepts={acc}")
     if ctx.prop == "C05" and f.get("feas") == "1" and blocked is not None:
-        ctx.violation(ad.hidden_key(inst, sol, f), "a feasible solution is not offered by the real mask",
+        ctx.violation(ad.hidden_key(inst, sol, f, blocked_at=blocked), "a feasible solution is not offered by the real mask",
                       {"inst": inst, "solution": sol, "blocked_at_step": blocked})
     if ctx.prop in ("C01", "C02", "C03", "C04") and blocked is None and f.get("feas") == "0":
         ctx.violation(f"{ad.name}:infeasible-episode", "mask-confined episode of the real env is infeasible by the Lean Spec",
@@ -734,10 +919,15 @@ SP = SpctspAdapter()
 NOTE_OP = ("OPEnv modelled per instance over integers (Rl4co/Env/Op.lean); the per-node budgets `max_length − dist − 1e-6` "
            "and the checker bounds are read back from the real reset state (unit 2^-44) and compared with the exact "
            "rational value to one ulp; coordinates→distance arithmetic and float32 rounding are outside the model "
-           "(exact-stream instances make them exact)")
+           "(exact-stream instances make them exact); env / generator options (generator max_length below and above the "
+           "instances' own max_length, prize_type, min/max_loc, check_solution, _torchrl_mode) are exercised as variants and "
+           "are NOT parameters of the model: the per-instance behaviour must not depend on them; the batched single-column "
+           "path of the checker is modelled separately (Rl4co.Op.checkSingleColumnBatch, rows sharing one point set)")
 NOTE_PC = ("PCTSPEnv / SPCTSPEnv modelled per instance over integer ticks (Rl4co/Env/Pctsp.lean, `stochastic` flag selects "
            "the real prize); one env object per instance size because `_reset` sizes `visited` from the generator; "
-           "coordinates→distance arithmetic and float32 rounding are outside the model (exact-stream instances make them exact)")
+           "coordinates→distance arithmetic and float32 rounding are outside the model (exact-stream instances make them exact); "
+           "generator / env options (penalty_factor, prize_required, min/max_loc, check_solution, _torchrl_mode) are exercised as "
+           "variants and are NOT parameters of the model: the requirement is the literal 1.0 whatever `prize_required` says")
 NO_THM = "no theorem yet: correspondence + spec oracle only"
 
 
@@ -781,7 +971,12 @@ OP_THMS = {
             T("Rl4co.Op.check_sound_counterexample", "proved",
               "KNOWN FINDING: an action list that neither starts nor ends at the depot is measured without the depot legs"),
             T("Rl4co.Op.check_sound_partial", "partial",
-              "checker accepts a list ending at the depot ⇒ feasible within the checker tolerance")],
+              "checker accepts a list ending (or starting) at the depot ⇒ feasible within the checker tolerance"),
+            T("Rl4co.Op.check_single_column_batch_counterexample", "proved",
+              "KNOWN FINDING: on a batch of ≥ 2 rows with a single action column the checker tests every row with the "
+              "perimeter of the polygon through the rows' nodes"),
+            T("Rl4co.Op.check_single_column_batch_partial", "partial",
+              "for a batch of one row the single-column path of the checker agrees with the row-wise checker")],
 }
 PC_THMS = {
     "C01": [T("Rl4co.Pctsp.feasible_of_run", "proved",
